@@ -179,6 +179,8 @@ pub fn run(o: &Opts) -> Report {
         // blank-padded look-alikes: a blank is a character of 35x contents but not of a BIC or an account line
         // a first line shaped like a BIC followed by name lines / a second BIC; one-line names that look like an account
         "ACMECORP\n12 HIGH STREET\nLONDON", "DEUTDEFF\nCHASUS33", "DEUTDEFFXXX\nMAIN STREET 1", "BANK24", "HSBC1865", "BANK24\nLONDON", "NEW YORK\nUSA",
+        // slash-led one-liners that are NOT a valid party identifier (lone slash, 35 characters, a character outside the x set)
+        "/", "/ABCDEFGHIJKLMNOPQRSTUVWXYZ123456789", "/ABC{DEF", "/ABC\u{e9}", "//", "/C/",
         "DEUTDEFF ", " CHASUS33XXX", "CHASUS33  ", " /12345678", "/12345678 \nCHASUS33", "JOHN DOE ", " JOHN DOE", "DEUTDEFF\t"];
     for (name, base, family) in ENUMS {
         let mut contents: Vec<(String, String)> = Vec::new();
